@@ -75,3 +75,231 @@ def maxF (key : α → κ) (le : κ → κ → Bool) : List α → Option α
 def sumF (xs : List Int) (start : Int) : Int := xs.foldl (· + ·) start
 
 end JinjaV.FiltColl
+
+/-! ## attribute paths: `make_attrgetter` / `make_multi_attrgetter` / `_prepare_attribute_parts` (filters.py:58-136)
+
+Values are modelled as far as `Environment.getitem` (environment.py:467-479: `obj[arg]`, on AttributeError/TypeError/LookupError
+`getattr(obj, arg)` for a string `arg`, else `undefined`) can tell them apart.  Domain: dict keys are strings; attribute / key names
+are not names of methods of dict/list/str/int (`items`, `keys`, `count`, … would be found by `getattr` on the builtin type);
+objects are plain (not subscriptable, no `__getattr__`). -/
+namespace JinjaV.FiltColl
+
+inductive Val where
+  | int (n : Int)
+  | str (s : String)
+  | none
+  | dict (kvs : List (String × Val))
+  | list (xs : List Val)
+  | obj (attrs : List (String × Val))
+  deriving Inhabited
+
+/-- one element of a dotted path: `_prepare_attribute_parts` turns all-digit pieces into integers -/
+inductive Part where
+  | name (s : String)
+  | idx (n : Nat)
+  deriving BEq, DecidableEq, Repr
+
+/-- `_prepare_attribute_parts` for a string attribute: `[int(x) if x.isdigit() else x for x in attr.split(".")]` -/
+def preparePiece (x : String) : Part :=
+  if x ≠ "" ∧ x.all Char.isDigit then .idx x.toNat! else .name x
+
+def prepareParts (attr : String) : List Part := (attr.splitOn ".").map preparePiece
+
+/-- `Environment.getitem(v, part)` on a defined value; `none` = an Undefined is returned -/
+def getitem : Val → Part → Option Val
+  | .dict kvs, .name s => kvs.lookup s
+  | .obj attrs, .name s => attrs.lookup s
+  | .list xs, .idx n => xs[n]?
+  | .str s, .idx n => (s.toList[n]?).map fun c => .str (String.singleton c)
+  | _, _ => Option.none
+
+/-- what the getter holds after a step: a value, an Undefined, or UndefinedError was raised -/
+inductive Res where
+  | val (v : Val)
+  | undef
+  | err
+  deriving Inhabited
+
+/-- `environment.getitem(item, part)` where `item` may itself be undefined: `Undefined.__getitem__` raises UndefinedError
+    (default and strict), `ChainableUndefined.__getitem__` returns itself (`chain`) -/
+def getitemR (chain : Bool) : Res → Part → Res
+  | .val v, p => match getitem v p with
+    | some w => .val w
+    | Option.none => .undef
+  | .undef, _ => if chain then .undef else .err
+  | .err, _ => .err
+
+/-- `if default is not None and isinstance(item, Undefined): item = default` (`d = none`: no default / `default=None`) -/
+def substDefault (d : Option Val) : Res → Res
+  | .undef => match d with
+    | some v => .val v
+    | Option.none => .undef
+  | r => r
+
+/-- the body of the `for part in parts` loop: the lookup, THEN the default substitution — after each part -/
+def attrStep (chain : Bool) (d : Option Val) (r : Res) (p : Part) : Res := substDefault d (getitemR chain r p)
+
+/-- the loop of `attrgetter` -/
+def attrWalk (chain : Bool) (d : Option Val) (parts : List Part) (item : Val) : Res :=
+  parts.foldl (attrStep chain d) (.val item)
+
+/-- `ignore_case`: strings are lower-cased, everything else (also an Undefined) is returned as it is -/
+def lowerRes : Res → Res
+  | .val (.str s) => .val (.str s.toLower)
+  | r => r
+
+/-- `make_attrgetter(environment, attribute, postprocess, default)(item)`; `post` = `postprocess is ignore_case` -/
+def attrget (chain : Bool) (d : Option Val) (post : Bool) (parts : List Part) (item : Val) : Res :=
+  let r := attrWalk chain d parts item
+  if post then lowerRes r else r
+
+/-- the plain lookup along the path: `none` as soon as some prefix of the path is undefined -/
+def lookupPath : List Part → Val → Option Val
+  | [], v => some v
+  | p :: ps, v => match getitem v p with
+    | some w => lookupPath ps w
+    | Option.none => Option.none
+
+/-! ### the filters that take `attribute`, on top of the getter -/
+
+/-- outcome of a filter call: a result, UndefinedError, or outside the modelled domain (keys that are not all ints / all strings,
+    undefined sort keys, repr of containers) -/
+inductive Out (α : Type) where
+  | ok (a : α)
+  | raised
+  | oom
+
+inductive Key where
+  | int (n : Int)
+  | str (s : String)
+  deriving BEq, DecidableEq
+
+def Key.le : Key → Key → Bool
+  | .int a, .int b => a ≤ b
+  | .str a, .str b => !(b < a)
+  | _, _ => false
+
+def Key.sameKind : Key → Key → Bool
+  | .int _, .int _ => true
+  | .str _, .str _ => true
+  | _, _ => false
+
+def keyOfRes : Res → Option Key
+  | .val (.int n) => some (.int n)
+  | .val (.str s) => some (.str s)
+  | _ => Option.none
+
+def Res.isErr : Res → Bool
+  | .err => true
+  | _ => false
+
+def homogeneous : List Key → Bool
+  | [] => true
+  | k :: ks => ks.all (Key.sameKind k)
+
+/-- the keys of all items (indexed), scanning in input order: the first item for which the getter raises makes the filter raise,
+    the first key that is not an int / a string, or not of the first key's kind, leaves the modelled domain (Python would hash,
+    compare or print it) — whichever comes first -/
+def keyedScan : List Res → List Key → Out (List Key)
+  | [], acc => .ok acc.reverse
+  | r :: rs, acc =>
+    if r.isErr then .raised
+    else match keyOfRes r with
+      | Option.none => .oom
+      | some k => if homogeneous (k :: acc) then keyedScan rs (k :: acc) else .oom
+
+def Out.map {α β : Type} (f : α → β) : Out α → Out β
+  | .ok a => .ok (f a)
+  | .raised => .raised
+  | .oom => .oom
+
+def keyed (chain : Bool) (d : Option Val) (post : Bool) (parts : List Part) (items : List Val) : Out (List (Nat × Key)) :=
+  (keyedScan (items.map (attrget chain d post parts)) []).map fun ks => (List.range ks.length).zip ks
+
+/-- `map(attribute=…, default=…)`: the getter's result for every item; the first raising item makes the filter raise -/
+def mapAttr (chain : Bool) (d : Option Val) (parts : List Part) (items : List Val) : Out (List Res) :=
+  let rs := items.map (attrget chain d false parts)
+  if rs.any Res.isErr then .raised else .ok rs
+
+/-- `unique(attribute=…, case_sensitive=…)`: indices of the kept items -/
+def uniqueAttr (chain post : Bool) (parts : List Part) (items : List Val) : Out (List Nat) :=
+  (keyed chain Option.none post parts items).map fun ks => (uniqueF Prod.snd ks).map Prod.fst
+
+def lexLe : List Key → List Key → Bool
+  | [], _ => true
+  | _ :: _, [] => false
+  | a :: as, b :: bs => if a == b then lexLe as bs else Key.le a b
+
+/-- `sort(attribute="p,q,…")`: `make_multi_attrgetter` — one key per comma separated path (no default), compared as lists -/
+def sortMultiAttr (chain post reverse : Bool) (cols : List (List Part)) (items : List Val) : Out (List Nat) :=
+  let rows := items.map fun it => cols.map fun c => attrget chain Option.none post c it
+  if rows.any (·.any Res.isErr) then .raised
+  else match rows.mapM (·.mapM keyOfRes) with
+    | Option.none => .oom
+    | some ks =>
+      if (List.range cols.length).all (fun j => homogeneous (ks.filterMap (·[j]?))) then
+        .ok ((sortF Prod.snd lexLe reverse ((List.range ks.length).zip ks)).map Prod.fst)
+      else .oom
+
+/-- `groupby(attribute, default=…, case_sensitive=…)`: indices per group, in key order -/
+def groupbyAttr (chain : Bool) (d : Option Val) (post : Bool) (parts : List Part) (items : List Val) : Out (List (List Nat)) :=
+  (keyed chain d post parts items).map fun ks => (groupbyF Prod.snd Key.le ks).map fun (_, g) => g.map Prod.fst
+
+def minAttr (chain post : Bool) (parts : List Part) (items : List Val) : Out (Option Nat) :=
+  (keyed chain Option.none post parts items).map fun ks => (minF Prod.snd Key.le ks).map Prod.fst
+
+def maxAttr (chain post : Bool) (parts : List Part) (items : List Val) : Out (Option Nat) :=
+  (keyed chain Option.none post parts items).map fun ks => (maxF Prod.snd Key.le ks).map Prod.fst
+
+/-- `sum(attribute=…, start=…)`: `start + v₁ + …`; adding an Undefined raises UndefinedError (all three kinds) -/
+def sumAttr (chain : Bool) (parts : List Part) (start : Int) (items : List Val) : Out Int :=
+  let step : Out Int → Res → Out Int := fun acc r =>
+    match acc, r with
+    | .ok n, .val (.int m) => .ok (n + m)
+    | .ok _, .undef => .raised
+    | .ok _, .err => .raised
+    | .ok _, _ => .oom
+    | a, _ => a
+  (items.map (attrget chain Option.none false parts)).foldl step (.ok start)
+
+/-- `join(sep, attribute=…)` without autoescape: `str(v)`; an Undefined prints as "" unless it is strict -/
+def joinAttr (chain strict : Bool) (parts : List Part) (sep : String) (items : List Val) : Out String :=
+  let rs := items.map (attrget chain Option.none false parts)
+  if rs.any Res.isErr then .raised
+  else
+    let piece : Res → Out String := fun r =>
+      match r with
+      | .val (.int n) => .ok (toString n)
+      | .val (.str s) => .ok s
+      | .undef => if strict then .raised else .ok ""
+      | _ => .oom
+    let step : Out (List String) → Res → Out (List String) := fun acc r =>
+      match acc, piece r with
+      | .ok l, .ok s => .ok (l ++ [s])
+      | .ok _, .raised => .raised
+      | .ok _, .oom => .oom
+      | a, _ => a
+    (rs.foldl step (.ok [])).map (sep.intercalate ·)
+
+/-- Python truthiness of a modelled value -/
+def truthy : Val → Bool
+  | .int n => n ≠ 0
+  | .str s => s ≠ ""
+  | .none => false
+  | .dict kvs => !kvs.isEmpty
+  | .list xs => !xs.isEmpty
+  | .obj _ => true
+
+/-- `selectattr(attribute)` / `rejectattr(attribute)` without a test: `bool(value)`; a strict Undefined raises on `bool` -/
+def selectAttr (chain strict keep : Bool) (parts : List Part) (items : List Val) : Out (List Nat) :=
+  let rs := items.map (attrget chain Option.none false parts)
+  if rs.any Res.isErr then .raised
+  else
+    let step : Out (List Nat) → (Nat × Res) → Out (List Nat) := fun acc (i, r) =>
+      match acc, r with
+      | .ok l, .val v => if truthy v == keep then .ok (l ++ [i]) else .ok l
+      | .ok l, .undef => if strict then .raised else (if keep then .ok l else .ok (l ++ [i]))
+      | a, _ => a
+    ((List.range rs.length).zip rs).foldl step (.ok [])
+
+end JinjaV.FiltColl
